@@ -1,0 +1,5 @@
+//go:build !verif
+
+package kvstore
+
+func verifYield(string) {}
